@@ -90,6 +90,9 @@ func c09Values(tier string) (vals []c09Value, nulls []c09Null) {
 			add("json", 114, j, "text:"+j, c09Form{"[]byte", []byte(j)}, c09Form{"string", j})
 		}
 	}
+	for _, j := range []string{`{"a": 1}`, `[]`} {
+		add("jsonb", 3802, j, "text:"+j, c09Form{"string", j}, c09Form{"[]byte", []byte(j)})
+	}
 	addNull := func(t string, o uint32, forms ...c09Form) {
 		nulls = append(nulls, c09Null{t, o, append([]c09Form{{"untyped nil", nil}}, forms...)})
 	}
@@ -347,6 +350,81 @@ func c09RunTwoPortals(cell c09Cell, firstBinary bool) explore.Result {
 	return res
 }
 
+// c09RunMulti: one simple query of several statements with different column sets. A client decodes each DataRow
+// with the RowDescription received last: field count and every value must match it.
+func c09RunMulti(sets [][]c09Cell) explore.Result {
+	var res explore.Result
+	res.Outcome = "values"
+	res.Key = fmt.Sprint("multi", len(sets), func() (n []int) {
+		for _, s := range sets {
+			n = append(n, len(s))
+		}
+		return
+	}())
+	parse := func(ctx context.Context, q string) (wire.PreparedStatements, error) {
+		var out wire.PreparedStatements
+		for _, cells := range sets {
+			cells := cells
+			var cols wire.Columns
+			row := make([]any, len(cells))
+			for i, c := range cells {
+				cols = append(cols, wire.Column{Name: fmt.Sprintf("c%d", i), Oid: oid.Oid(c.OID)})
+				row[i] = c.V
+			}
+			out = append(out, wire.NewStatement(func(ctx context.Context, w wire.DataWriter, p []wire.Parameter) error {
+				if err := w.Row(row); err != nil {
+					return err
+				}
+				return w.Complete("SELECT 1")
+			}, wire.WithColumns(cols)))
+		}
+		return out, nil
+	}
+	one, err := harness.StartOne(parse)
+	if err != nil {
+		res.Engine = err.Error()
+		return res
+	}
+	defer one.Stop()
+	one.Step(pgproto.Startup("user", "u"))
+	out, _ := one.Step(pgproto.Query("several statements"))
+	ms, perr := pgproto.ParseBackend(out)
+	if perr != nil {
+		res.Fail("reply-grammar", perr.Error())
+		return res
+	}
+	var t *pgproto.BMsg
+	stmt := -1
+	for i := range ms {
+		switch ms[i].Type {
+		case 'T':
+			t = &ms[i]
+			stmt++
+		case 'D':
+			d := ms[i]
+			if t == nil || stmt >= len(sets) {
+				res.Fail("datarow-without-description", fmt.Sprintf("reply %q: a DataRow arrives with no RowDescription in effect", pgproto.Kinds(ms)))
+				return res
+			}
+			if len(d.Row) != len(t.Cols) {
+				res.Fail("datarow-arity", fmt.Sprintf("reply %q: a DataRow carries %d fields, the RowDescription in effect announced %d", pgproto.Kinds(ms), len(d.Row), len(t.Cols)))
+				return res
+			}
+			for j, f := range d.Row {
+				got, derr := pgproto.DecodeValue(t.Cols[j].OID, t.Cols[j].Format, f)
+				if derr != nil || got != sets[stmt][j].Canon {
+					res.Fail("value-mismatch", fmt.Sprintf("reply %q: statement %d column %d: field % x decodes to %q (%v) under the RowDescription in effect, written %s", pgproto.Kinds(ms), stmt, j, f, got, derr, sets[stmt][j]))
+				}
+			}
+			t = nil // one row per statement: the next row needs its own description
+		}
+	}
+	if stmt != len(sets)-1 {
+		res.Fail("datarow-count", fmt.Sprintf("%d statements, reply %q", len(sets), pgproto.Kinds(ms)))
+	}
+	return res
+}
+
 // c09RunRedefine: a statement name is defined again (other columns, other values) while a portal bound to the
 // earlier definition is still open. Each portal's DataRow must match the RowDescription of that very portal.
 func c09RunRedefine(name string, a, b []c09Cell, fa, fb int16) explore.Result {
@@ -506,6 +584,23 @@ func c09Enumerate(tier string, emit explore.Emit) {
 			}
 		}
 		return c09Cell{}, false
+	}
+	// multi-statement simple queries over different column sets
+	for _, shape := range [][]int{{1, 2}, {2, 1}, {1, 3, 2}, {3, 3}, {2, 1, 1}} {
+		var sets [][]c09Cell
+		off := 0
+		for _, n := range shape {
+			var set []c09Cell
+			for i := 0; i < n; i++ {
+				set = append(set, base[(off+i)%len(base)])
+			}
+			off += n
+			sets = append(sets, set)
+		}
+		shape := shape
+		emit(explore.Case{Family: "multi-statement", Size: 4,
+			Desc: func() any { return map[string]any{"columns_per_statement": shape} },
+			Run:  func() explore.Result { return c09RunMulti(sets) }})
 	}
 	// a statement name defined twice while a portal of the first definition is open
 	for _, name := range []string{"", "s"} {
